@@ -6,6 +6,7 @@ import (
 
 	"github.com/paulsonkoly/calc/parser"
 	"github.com/paulsonkoly/calc/types/node"
+	"github.com/paulsonkoly/calc/vm"
 
 	"verif/ast"
 	"verif/calcrun"
@@ -191,12 +192,22 @@ func c15LongCode(ctx *core.Ctx, idx int) core.Result {
 	var res core.Result
 	targets := []int{0, 0, 300, 32600, 32740, 32768, 32790, 40000, 65500, 65560, 70000, 100000}
 	target := targets[idx%len(targets)]
+	if idx%3 == 1 {
+		// fine-grained small offsets: the probes are compiled across every alignment with the points where the
+		// growing code segment is reallocated (128, 256, 512 entries)
+		target = 75 + (idx*37)%470
+	}
 	doOut := (idx/len(targets))%2 == 0
 	calcrun.SetStdin("")
 	ses := calcrun.NewSession()
 	feed := func(src string) (out string, pan any) {
 		func() {
-			defer func() { pan = recover() }()
+			defer func() {
+				pan = recover()
+				vm.VerifMon.StepLimit = 0
+			}()
+			vm.VerifReset()
+			vm.VerifMon.StepLimit = 5000000 // the probes need a few hundred instructions
 			out = calcrun.Capture(func() { node.VerifProcessInput(src, parser.Type{}, ses.VM, doOut) })
 		}()
 		return
